@@ -925,7 +925,7 @@ func genRelayPlan(seed uint64, tier string, focus string) *Plan {
 		if op.S["next"] == "tcp" && op.Settle && g.chance(10) {
 			// the TCP next hop stops reading for some seconds (busy, swapped out) with little room left in its
 			// buffers: the proxy's writes towards it block. What it relays there meanwhile arrives whole, once, in order
-			p.Ops = append(p.Ops, Op{Kind: "sink-stall", ID: g.nextID(), S: map[string]string{"outOf": op.ID}, I: map[string]int{"ms": g.pick2(1500, 4500, 9000), "window": g.pick2(0, 100, 700, 3000)}})
+			p.Ops = append(p.Ops, Op{Kind: "sink-stall", ID: g.nextID(), S: map[string]string{"outOf": op.ID}, I: map[string]int{"ms": g.pick2(1500, 4500, 9000), "window": g.pick2(0, 100, 700, 3000), "resetAfterMs": g.pick2(0, 0, 0, 200, 1200)}})
 			for k, sep := range []string{"_", "~"} {
 				if k == 1 && g.chance(50) {
 					break
@@ -1076,6 +1076,16 @@ func execRelay(t *testing.T, p *Plan) *Result {
 					if end := w.sinkEnds[j.em.E.ConnID]; end != nil && !end.Closed() && !end.IsReset() {
 						end.Stall(time.Duration(op.I["ms"])*time.Millisecond, op.I["window"])
 						w.stat("probe:next-hop-stalled")
+						if ms := op.I["resetAfterMs"]; ms > 0 {
+							// ... and its process is killed while it does not read: the write that is blocked on it fails
+							// with part of the message gone; the whole message belongs on a new connection
+							w.stat("probe:stalled-next-hop-resets")
+							w.K.After(time.Duration(ms)*time.Millisecond, "stalled-sink-resets", func() {
+								if !end.Closed() && !end.IsReset() {
+									end.Reset()
+								}
+							})
+						}
 					}
 				}
 			case "sink-hangup":
